@@ -244,15 +244,47 @@ def run(ctx):
             if s['k'] == 'assign' and s['rv']['k'] == 'use' and op_local(s['rv']['op']) in flag_locals and not s['place']['p'] and s['place']['l'] not in flag_locals:
                 flag_locals.add(s['place']['l'])
                 changed = True
+    # a tuple built only to be matched, `match (tail_available, callee) { (true, ..) => .. }`, carries the flag in one field:
+    # reading that field is reading the flag; the tuple as a whole must go nowhere else
+    carriers = {}
+    for i, j, s in ev.stmts():
+        if s['k'] == 'assign' and s['rv']['k'] == 'agg' and s['rv'].get('ak') == 'tuple' and not s['place']['p']:
+            ks = [k for k, o in enumerate(s['rv']['ops']) if op_local(o) in flag_locals]
+            if ks:
+                carriers[s['place']['l']] = set(ks)
+    changed = True
+    while changed:
+        changed = False
+        for i, j, s in ev.stmts():
+            if s['k'] == 'assign' and s['rv']['k'] == 'use' and not s['place']['p'] and s['place']['l'] not in flag_locals:
+                p = op_place(s['rv']['op'])
+                if p is not None and p['l'] in carriers and len(p['p']) == 1 and isinstance(p['p'][0], dict) and p['p'][0].get('f') in carriers[p['l']]:
+                    flag_locals.add(s['place']['l'])
+                    changed = True
     for i, j, s in ev.stmts():
         if s['k'] == 'assign':
+            if s['rv']['k'] == 'agg' and s['rv'].get('ak') == 'tuple' and s['place']['l'] in carriers:
+                continue
             for m, p in mirq.places_in_stmt(s):
                 if m != 'w' and p['l'] in flag_locals and not (s['rv']['k'] == 'use' and not s['place']['p']):
+                    uses.append(('stmt', i, s['rv']['k']))
+                if m != 'w' and p['l'] in carriers and not (len(p['p']) >= 1 and isinstance(p['p'][0], dict) and 'f' in p['p'][0]):
+                    uses.append(('stmt', i, 'tuple carrying the flag used as a whole'))
+                elif m != 'w' and p['l'] in carriers and p['p'][0].get('f') in carriers[p['l']] and not (s['rv']['k'] == 'use' and not s['place']['p']):
                     uses.append(('stmt', i, s['rv']['k']))
     for i, bl in enumerate(ev.blocks):
         t = bl['term']
         if t['k'] == 'switch' and op_local(t['discr']) in flag_locals:
             uses.append(('switch', i, None))
+        if t['k'] == 'switch':
+            dp = op_place(t['discr'])
+            if dp is not None and dp['l'] in carriers and len(dp['p']) == 1 and isinstance(dp['p'][0], dict) and dp['p'][0].get('f') in carriers[dp['l']]:
+                uses.append(('switch', i, None))
+        if t['k'] == 'call':
+            for a in t['args']:
+                ap = op_place(a)
+                if ap is not None and ap['l'] in carriers:
+                    uses.append(('call', i, (strip_generics(t.get('callee') or t.get('decl') or ''), 'tuple carrying the flag')))
         if t['k'] == 'call':
             for ai, a in enumerate(t['args']):
                 if op_local(a) in flag_locals:
